@@ -152,7 +152,17 @@ class TGen:
             if k < 0.84 and self.methods:
                 a = self.recv(env, lambda x: is_arr(x, 'num'), d)
                 if a:
+                    if r.random() < 0.35:
+                        # strict equality: a needle of another type never matches, whatever it prints as
+                        return ('call', ('dot', a, b"indexOf"), [('str', str(r.choice([0, 1, 2, 3, 7, 10, 42])).encode())])
                     return ('call', ('dot', a, b"indexOf"), [E('num')])
+            if k < 0.87 and self.methods:
+                # arrays mixing numbers and strings that print alike
+                n = r.choice([1, 2, 7, 10])
+                items = [('num', n), ('str', str(n).encode()), ('num', r.choice([3, 5])), ('str', b"x")]
+                r.shuffle(items)
+                needle = r.choice([('num', n), ('str', str(n).encode()), ('str', b"3"), ('num', 9), ('bool', True)])
+                return ('call', ('dot', ('arr', items[:r.choice([2, 3, 4])]), b"indexOf"), [needle])
             if k < 0.92:
                 return ('cond', E('bool'), E('num'), E('num'))
             return ('bin', r.choice(['&&', '||']), E('num'), E('num'))
